@@ -143,6 +143,20 @@ RANGES = {"sel": NSEL, "s1": 6, "s2": 6, "b1": 8, "b2": 3, "b": 3, "opt": 3, "o1
 def rule_lemmas(tier, with_regexp=False):
     out = []
     for name, (fn, params, what) in RULES.items():
+        if name == "py_properties_rule":
+            # split over the two optional tri-states so the nine sub-lemmas run in parallel (108 paths each)
+            for o1 in range(3):
+                for o2 in range(3):
+                    out.append(
+                        xh.Lemma(
+                            "%s_%d_%d" % (name, o1, o2),
+                            [("s1", "int"), ("s2", "int"), ("b", "int")],
+                            ["return G.py_properties_rule(%d, %d, s1, s2, b)" % (o1, o2)],
+                            pre=["0 <= s1 < %d" % RANGES["s1"], "0 <= s2 < %d" % RANGES["s2"], "0 <= b < %d" % RANGES["b"]],
+                            meta={"site": "generator/plugins/python/utils.py: %s [optional=(%s,%s)]" % (what, OPT[o1], OPT[o2]), "kind": "rule", "fn": name, "fixed": {"o1": o1, "o2": o2}},
+                        )
+                    )
+            continue
         ps, pre = [], []
         for p in params:
             if p == "optional":
@@ -157,7 +171,8 @@ def rule_lemmas(tier, with_regexp=False):
 
 def replay_rule(chk, lemma, r):
     fn = RULES[lemma.meta["fn"]][0]
-    args = r.args
+    args = dict(r.args)
+    args.update(lemma.meta.get("fixed", {}))
     try:
         ok = bool(fn(**args))
         detail = "returns %s" % ok
